@@ -3,11 +3,12 @@
     theorem covers and what is validated at run time only.
 
     Arithmetic layer (this section): all definitions named here are regenerated from the Rust
-    source by rs2v on every run ([Gen/FeeBump.v], [Gen/ConstsFee.v]) except [get_height_timer]
+    source by rs2v on every run ([Gen/Package.v], [Gen/CltvChecks.v], [Gen/Consts.v],
+    [Gen/PackageFeerate.v]) except [get_height_timer]
     ([Model/PackageTimer.v], hand transliteration of the input walk around the generated closure
     [timer_for_target_conf]). *)
-Require Import LdkV.Prim.U64 LdkV.Prim.Rs2vLib LdkV.Gen.ConstsFee LdkV.Gen.FeeBump LdkV.Model.PackageTimer
-  LdkV.Proofs.C07Fee.
+Require Import LdkV.Prim.U64 LdkV.Prim.Rs2vLib LdkV.Gen.Consts LdkV.Gen.Package LdkV.Gen.CltvChecks
+  LdkV.Gen.PackageFeerate LdkV.Model.PackageTimer LdkV.Proofs.C07Fee.
 Open Scope Z_scope.
 
 (** [feerate_bump]: feerate never decreases; either a plain re-broadcast (same feerate, same
